@@ -331,6 +331,13 @@ func (w *world) getRevision(name string) v1.PackageRevision {
 
 // putObject stores a pre-existing cluster object with the given owner references.
 func (w *world) putObject(o objSpec, name string, refs []map[string]any) {
+	if err := w.tryPutObject("earlier", o, name, refs); err != nil {
+		panic("c16: cannot store pre-existing object: " + err.Error())
+	}
+}
+
+// tryPutObject creates an object as the given actor; it fails if the object exists.
+func (w *world) tryPutObject(actor string, o objSpec, name string, refs []map[string]any) error {
 	obj := o.build()
 	m, err := runtime.DefaultUnstructuredConverter.ToUnstructured(obj)
 	if err != nil {
@@ -346,7 +353,7 @@ func (w *world) putObject(o objSpec, name string, refs []map[string]any) {
 		verifsim.Meta(u.Object)["ownerReferences"] = l
 	}
 	delete(verifsim.Meta(u.Object), "creationTimestamp")
-	w.sim.MustCreate("earlier", u)
+	return w.sim.Client(actor).Create(context.Background(), u)
 }
 
 func objKey(o objSpec, name string) verifsim.Key {
